@@ -272,6 +272,18 @@ def hyp_routes(draw, tier):
     typed = draw(st.sampled_from([False, False, True]))
     case = draw(gen_ops.histories(typed=typed, max_ops=8, max_nodes=14, kinds=["add", "add_node", "copy_to", "move", "set_data", "remove"]))
     case["pick"] = draw(st.integers(0, 50))
+    if draw(st.sampled_from([0, 0, 0, 1])):
+        # directed multi-step: re-key a clone group (with_clones=True) onto a data_id that other nodes already
+        # carry elsewhere (the groups merge), afterwards every member of the merged group must still block its parent
+        base = gen.spec_nodes(case["spec"])
+        case["spec"] = case["spec"] + [["p1", [["g1", []]]], ["p2", [["g1", []], ["k1", []]]], ["p3", [["h1", []]]]]
+        how = draw(st.sampled_from(["data", "id"]))
+        if how == "data":
+            case["ops"] = [["set_data", base + 1, "h1", None, True, False]]
+        else:
+            hid = hash("h1")
+            case["ops"] = [["set_data", base + 1, None, hid, True, False]]
+        return case
     if not typed and draw(st.sampled_from([0, 0, 1])):
         # directed: clones nested in each other whose un-nested (grand)children collide one or two levels up
         g, x = draw(st.sampled_from([("e", "f"), ("a", "b"), ("c", "d")]))
